@@ -10,7 +10,10 @@ import (
 
 func init() {
 	props["C01"] = func(tier string, seed uint64, n int, e *Emitter) { xGenProp("C01", 1, tier, seed, n, e) }
-	props["C04"] = func(tier string, seed uint64, n int, e *Emitter) { xGenProp("C04", 4, tier, seed, n, e) }
+	props["C04"] = func(tier string, seed uint64, n int, e *Emitter) {
+		xGenProp("C04", 4, tier, seed, n, e)
+		c04Direct(tier, seed, e)
+	}
 	props["C05"] = func(tier string, seed uint64, n int, e *Emitter) { xGenProp("C05", 5, tier, seed, n, e) }
 	props["C13"] = func(tier string, seed uint64, n int, e *Emitter) {
 		xGenProp("C13", 13, tier, seed, n, e)
